@@ -7,6 +7,9 @@ import GoatProofs.Lemmas.C10Claims
 import GoatProofs.Lemmas.C10Paths
 import GoatProofs.Lemmas.C10Override
 import GoatProofs.Lemmas.C10NDFull
+import GoatProofs.Lemmas.C10Frame
+import GoatProofs.Lemmas.C10Universe
+import GoatProofs.Lemmas.C10ClaimsRT
 /-
 C10 — "Registered claims and custom claims survive a trip through the library unchanged …
 Numeric dates preserve instants to the nanosecond over the whole supported range, and a value that
@@ -24,60 +27,16 @@ open GoatProofs.Lemmas.C10Digits GoatProofs.Lemmas.C10Int GoatProofs.Lemmas.C10N
     error "overflow".  (bits ≤ 64: int8 … int64, int.) -/
 theorem overflow_is_error_signed (bits : Nat) (hb : 1 ≤ bits ∧ bits ≤ 64) (n : Int) :
     decodeInt bits (formatInt n) =
-      if -(2 ^ (bits - 1) : Int) ≤ n ∧ n ≤ (2 ^ (bits - 1) : Int) - 1 then .ok n else .err "overflow" := by
-  unfold decodeInt
-  rw [formatInt_toList, parseInt64_intChars]
-  have hpow : (2 : Int) ^ (bits - 1) ≤ 2 ^ 63 := by
-    have : (2 : Nat) ^ (bits - 1) ≤ 2 ^ 63 := Nat.pow_le_pow_right (by omega) (by omega)
-    exact_mod_cast this
-  have hpos : (0 : Int) < 2 ^ (bits - 1) := Int.pow_pos (by decide)
-  by_cases h64 : n < minInt64 ∨ n > maxInt64
-  · have : ¬ (-(2 ^ (bits - 1) : Int) ≤ n ∧ n ≤ (2 ^ (bits - 1) : Int) - 1) := by
-      unfold minInt64 maxInt64 at h64; omega
-    rw [if_pos h64, if_neg this]
-  · rw [if_neg h64]
-    unfold overflowInt
-    by_cases hr : -(2 ^ (bits - 1) : Int) ≤ n ∧ n ≤ (2 ^ (bits - 1) : Int) - 1
-    · have : ¬ (n < -(2 ^ (bits - 1) : Int) ∨ n > (2 ^ (bits - 1) : Int) - 1) := by omega
-      rw [if_pos hr]
-      simp only [decide_eq_true_eq, this, if_false]
-    · have : (n < -(2 ^ (bits - 1) : Int) ∨ n > (2 ^ (bits - 1) : Int) - 1) := by omega
-      rw [if_neg hr]
-      simp only [decide_eq_true_eq, this, if_true]
+      if -(2 ^ (bits - 1) : Int) ≤ n ∧ n ≤ (2 ^ (bits - 1) : Int) - 1 then .ok n else .err "overflow" :=
+  decodeInt_formatInt_eq bits hb n
 
 /-- **overflow_is_error (unsigned)** — decoding the integer literal `n` into a `bits`-wide unsigned
     kind succeeds iff `0 ≤ n < 2^bits` (a negative number into an unsigned field is an error) and
     then yields exactly `n`. -/
 theorem overflow_is_error_unsigned (bits : Nat) (hb : bits ≤ 64) (n : Int) :
     decodeUint bits (formatInt n) =
-      if 0 ≤ n ∧ n < (2 ^ bits : Int) then .ok n.toNat else .err "overflow" := by
-  unfold decodeUint
-  rw [formatInt_toList, parseUint64_intChars]
-  have hpow : (2 : Int) ^ bits ≤ 2 ^ 64 := by
-    have : (2 : Nat) ^ bits ≤ 2 ^ 64 := Nat.pow_le_pow_right (by omega) hb
-    exact_mod_cast this
-  by_cases h64 : n < 0 ∨ n ≥ 2 ^ 64
-  · have : ¬ (0 ≤ n ∧ n < (2 ^ bits : Int)) := by omega
-    rw [if_pos h64, if_neg this]
-  · rw [if_neg h64]
-    unfold overflowUint
-    have hcast : ((n.toNat : Nat) : Int) = n := by omega
-    by_cases hr : 0 ≤ n ∧ n < (2 ^ bits : Int)
-    · have : ¬ (n.toNat ≥ 2 ^ bits) := by
-        intro h
-        have : ((2 ^ bits : Nat) : Int) ≤ (n.toNat : Int) := by exact_mod_cast h
-        rw [hcast] at this
-        have e : ((2 ^ bits : Nat) : Int) = (2 : Int) ^ bits := by norm_cast
-        omega
-      rw [if_pos hr]
-      simp only [decide_eq_true_eq, this, if_false]
-    · have : n.toNat ≥ 2 ^ bits := by
-        have h1 : (2 : Int) ^ bits ≤ n := by omega
-        have e : ((2 ^ bits : Nat) : Int) = (2 : Int) ^ bits := by norm_cast
-        have : ((2 ^ bits : Nat) : Int) ≤ (n.toNat : Int) := by rw [hcast, e]; exact h1
-        exact_mod_cast this
-      rw [if_neg hr]
-      simp only [decide_eq_true_eq, this, if_true]
+      if 0 ≤ n ∧ n < (2 ^ bits : Int) then .ok n.toNat else .err "overflow" :=
+  decodeUint_formatInt_eq bits hb n
 
 /-- **overflow_is_error (fractional / exponent)** — a number text with any non-digit character after
     the optional sign ("1.5", "1e3", "1.0") is an error for every signed and unsigned width: the
@@ -459,23 +418,174 @@ example : (encodeCustom 10 (some [("a", .str "OLD"), ("keep", .num "1")]) true i
       (.strct [.str "NEW", .int 5])).run demoOracle =
     .ok [("a", .str "NEW"), ("keep", .num "1"), ("n", .num "5")] := rfl
 
-/-! ## claims_roundtrip (partial: audience and string claims) -/
+/-! ## DecodeCustom on a used destination: the frame theorem -/
+
+open GoatProofs.Lemmas.C10Frame GoatProofs.Lemmas.C10Lens in
+/-- **decodeInto_frame** — `DecodeCustom` of a JSON object into a struct destination that already
+    holds a value: a field whose claim name is **absent** from the object reads after the call
+    exactly what it read before — it is kept, not zeroed (`fitStruct n sv = sv` for every value with
+    one slot per declared field, `fitStruct_id`; every destination value, object, oracle;
+    types whose differently named fields sit at diverging index paths, `PathsApart`, a decidable
+    property: `pathsApart t = true`). -/
+theorem decodeInto_frame (o : Oracle) (fuel : Nat) (id : String) (fields : List Field)
+    (hp : PathsApart (.struct id fields)) (kvs : List (String × Wire)) (sv sv' : Val)
+    (h : (decodeInto (fuel + 1) (.struct id fields) sv (.obj kvs)).run o = .ok sv')
+    (g : FlatField) (hg : g ∈ typeFields (.struct id fields)) (habsent : ∀ kv ∈ kvs, kv.1 ≠ g.name) :
+    walkGet true g.index (.struct id fields) true sv' =
+      walkGet true g.index (.struct id fields) true (fitStruct fields.length sv) :=
+  GoatProofs.Lemmas.C10Frame.decodeInto_frame o fuel id fields hp kvs sv sv' h g hg habsent
+
+open GoatProofs.Lemmas.C10Frame GoatProofs.Lemmas.C10Lens in
+/-- **decodeInto_frame, present names** — a member whose name is a claim name overwrites exactly
+    that field: afterwards the field reads the result of decoding the member into the value the
+    field held before (unique member names). -/
+theorem decodeInto_present (o : Oracle) (fuel : Nat) (id : String) (fields : List Field)
+    (hp : PathsApart (.struct id fields)) (kvs : List (String × Wire)) (sv sv' : Val)
+    (h : (decodeInto (fuel + 1) (.struct id fields) sv (.obj kvs)).run o = .ok sv')
+    (hnd : (kvs.map Prod.fst).Nodup) (kv : String × Wire) (hkv : kv ∈ kvs) (f : FlatField)
+    (hff : firstField kv.1 (typeFields (.struct id fields)) = some f) :
+    ∃ tv x, walkGet true f.index (.struct id fields) true (fitStruct fields.length sv) = .ok tv ∧
+      (decodeInto fuel tv.1 tv.2 kv.2).run o = .ok x ∧
+      walkGet true f.index (.struct id fields) true sv' = .ok (tv.1, x) :=
+  GoatProofs.Lemmas.C10Frame.decodeInto_present o fuel id fields hp kvs sv sv' h hnd kv hkv f hff
+
+/-- the hypothesis is satisfiable: the nested/embedded example types have their fields apart -/
+example : GoatProofs.Lemmas.C10Frame.pathsApart outerTy = true ∧
+    GoatProofs.Lemmas.C10Frame.pathsApart deepTop = true := ⟨rfl, rfl⟩
+
+/-- non-vacuity: a used destination; the object names only "x,omitempty" and an unknown member —
+    every other field keeps its value -/
+example : (decodeInto 10 outerTy outerVal (.obj [("x,omitempty", .num "7"), ("unknown", .bool true)])).run demoOracle =
+    .ok (.strct [
+      .strct [.str "e", .uint 7],
+      .ptr (some (.strct [.str "in", .int (-5)])),
+      .int 7,
+      .list [.strct [.str "l0", .int 0], .strct [.str "l1", .int 1]],
+      .str "",
+      .str ""]) := rfl
+
+/-! ## custom_roundtrip over the universe of supported field types -/
+
+open GoatProofs.Lemmas.C10Universe in
+/-- **custom_roundtrip** — `decode ty (encode ty v) = ok v`, by induction on the type, for every
+    oracle satisfying the base64 inverse law and every well-typed value of every type built from:
+    string, bool, signed and unsigned integers of every width, float32/64 (under the strconv
+    format/parse inverse law *for that value*), time.Time (every instant of the accepted range, every
+    nanosecond), url.URL (under `url.parse (u.String()) = u.String()` for that value), unsigned
+    big.Int, byte strings, pointers, slices, and structs without embedding whose fields are again of
+    such types — nested to any depth.  Decoding may start from *any* destination value (not only the
+    zero value), and the fuel only has to exceed the nesting depth. -/
+theorem custom_roundtrip (o : Oracle) (hb64 : B64Law o) (t : Ty) (v : Val)
+    (hs : Supported t) (hw : WT o t v) :
+    ∃ F, ∀ fuel, F ≤ fuel → ∀ cur,
+      ((Custom.encode fuel true t v) >>= fun w => decodeInto fuel t cur w).run o = .ok v := by
+  obtain ⟨F, hF⟩ := GoatProofs.Lemmas.C10Universe.custom_roundtrip o hb64 t hs v hw
+  refine ⟨F, fun fuel hf cur => ?_⟩
+  obtain ⟨⟨w, hw⟩, hdec⟩ := hF fuel hf
+  rw [PO.run_bind, hw]
+  exact hdec w hw cur
+
+open GoatProofs.Lemmas.C10StructRT in
+/-- **custom_roundtrip for structs with embedding (field by field)** — for every struct type with
+    `fieldsOK` (flattened names unique, differently named fields at diverging paths — decidable), any
+    embedding depth, by value or through pointers: if every flattened field value round-trips as a
+    value of its own type (e.g. by `custom_roundtrip`), decoding what `encode` wrote succeeds and
+    every flattened field of the result reads exactly what it read in the original.
+
+    NOT PROVED: equality of the whole value for types with embedding (it needs extensionality of
+    struct values in their flattened fields, which fails for values with untagged or unexported
+    fields — those are not carried by design). -/
+theorem custom_roundtrip_struct_fields (o : Oracle) (fuel : Nat) (id : String) (fields : List Field) (sv cur : Val)
+    (hok : fieldsOK (.struct id fields) = true)
+    (hRT : ∀ f ∈ typeFields (.struct id fields), ∀ tvo, walkGet true f.index (.struct id fields) true sv = .ok tvo →
+        ∀ w, (Custom.encode fuel true tvo.1 tvo.2).run o = .ok w →
+        ∀ c, (decodeInto fuel tvo.1 c w).run o = .ok tvo.2)
+    (w : Wire) (henc : (Custom.encode (fuel + 1) true (.struct id fields) sv).run o = .ok w)
+    (hcur : ∀ f ∈ typeFields (.struct id fields), ∃ tv,
+        walkGet true f.index (.struct id fields) true (fitStruct fields.length cur) = .ok tv) :
+    ∃ sv', (decodeInto (fuel + 1) (.struct id fields) cur w).run o = .ok sv' ∧
+      ∀ f ∈ typeFields (.struct id fields),
+        walkGet true f.index (.struct id fields) true sv' = walkGet true f.index (.struct id fields) true sv := by
+  obtain ⟨sv', h1, _, h3⟩ := struct_roundtrip_fields o fuel id fields sv cur hok hRT w henc hcur
+    (fun _ => True) (fun _ _ _ _ _ => trivial) trivial
+  exact ⟨sv', h1, h3⟩
+
+/-- non-vacuity: a nested type of the universe (struct with a slice of structs, a pointer, a time,
+    bytes) and the decidable side conditions -/
+def uniInner : Ty := .struct "UInner" [.mk "A" "a" false true .string, .mk "N" "n" false true (.int 64)]
+def uniOuter : Ty := .struct "UOuter" [
+  .mk "L" "l" false true (.slice uniInner true),
+  .mk "P" "p" false true (.ptr uniInner),
+  .mk "T" "t" false true .time,
+  .mk "B" "b" false true (.slice (.uint 8) true),
+  .mk "U" "u" false true (.uint 16)]
+
+open GoatProofs.Lemmas.C10Universe GoatProofs.Lemmas.C10Plain GoatProofs.Lemmas.C10StructRT in
+example : Supported uniOuter := by
+  have hin : Supported uniInner :=
+    Supported.struct _ _ (by decide) rfl (by
+      intro fd hfd
+      simp only [List.mem_cons, List.mem_nil_iff, or_false] at hfd
+      rcases hfd with rfl | rfl
+      · exact Supported.string
+      · exact Supported.int 64 (by omega))
+  refine Supported.struct _ _ (by decide) rfl ?_
+  intro fd hfd
+  simp only [List.mem_cons, List.mem_nil_iff, or_false] at hfd
+  rcases hfd with rfl | rfl | rfl | rfl | rfl
+  · exact Supported.slice _ _ rfl hin
+  · exact Supported.ptr _ hin
+  · exact Supported.time
+  · exact Supported.bytes _
+  · exact Supported.uint 16 (by omega)
+
+/-! ## claims_roundtrip -/
+
+open Model.JWTClaims GoatProofs.Lemmas.C10ClaimsRT in
+/-- **claims_roundtrip** — for every Claims value `c` whose `Raw` does not itself use a registered
+    name (`RawClean`) and whose exp/nbf/iat are the zero time (claim omitted) or any instant of the
+    accepted range with any nanosecond part (`TimeOK`), for every oracle under
+    * the json.Marshal / Decode(UseNumber) inverse law on the marshalled map (the decoded object is
+      lookup-equivalent to it: `hmarshal`, `hdecode`, `hjson`),
+    * verifiers accepting the token's own iss/sub/aud, and a clock with nbf ≤ now < exp when those
+      claims are set,
+    `encodeClaims c` followed by `parseClaims` returns exactly `c`'s iss, sub, aud (0, 1 or n
+    entries), exp, nbf, iat (to the nanosecond; negative and fractional instants included), jti, and
+    the decoded object as Raw; by `theMap_extra` every member of `c.Raw` under a non-registered name
+    — extra and custom claims written by EncodeCustom (`encodeCustom_overrides`) — is in it unchanged. -/
+theorem claims_roundtrip (o : Oracle) (c : Claims)
+    (hclean : RawClean c) (he : TimeOK c.exp) (hn : TimeOK c.nbf) (hi : TimeOK c.iat)
+    (payload : Bytes) (kvs' : List (String × Wire))
+    (hmarshal : o ⟨"json.marshal", [.obj (theMap c)]⟩ = .bytes payload)
+    (hdecode : o ⟨"json.decodeMap", [.bytes payload]⟩ = .obj kvs')
+    (hjson : ∀ k, Wire.lookup k kvs' = Wire.lookup k (theMap c))
+    (hviss : o ⟨"verifyIssuer", [.str c.iss, .str c.sub]⟩ = .bool true)
+    (hvaud : o ⟨"verifyAudience", [.arr (c.aud.map Wire.str)]⟩ = .bool true)
+    (hexp : c.exp ≠ NumericDate.zeroTime → (o ⟨"now", []⟩).asInt < c.exp)
+    (hnbf : c.nbf ≠ NumericDate.zeroTime → ¬ (o ⟨"now", []⟩).asInt < c.nbf) :
+    (encodeClaims c >>= parseClaims).run o =
+      .ok ⟨c.iss, c.sub, c.aud, c.exp, c.nbf, c.iat, c.jti, .obj kvs'⟩ :=
+  GoatProofs.Lemmas.C10ClaimsRT.claims_roundtrip o c hclean he hn hi payload kvs' hmarshal hdecode hjson
+    hviss hvaud hexp hnbf
+
+open Model.JWTClaims GoatProofs.Lemmas.C10ClaimsRT in
+/-- non-vacuity: a Claims value with a negative fractional nbf, a fractional exp, two audiences and an
+    extra member satisfies the side conditions -/
+example : RawClean ⟨"joe", "", ["a", "b"], 1300819380500000000, -1500000000, NumericDate.zeroTime, "id",
+    .obj [("http://example.com/is_root", .bool true)]⟩ := by
+  intro k hk
+  simp only [List.mem_cons, List.mem_nil_iff, or_false] at hk
+  rcases hk with rfl | rfl | rfl | rfl | rfl | rfl | rfl <;> rfl
+
+/-! ### lemmas of the claims round trip (audience and string claims) -/
 
 open Model.JWTClaims GoatProofs.Lemmas.C10Claims in
-/-- **claims_roundtrip (partial: `aud` of 0, 1, n entries)** — whatever the rest of the map, the
+/-- **claims_roundtrip, `aud` of 0, 1, n entries** — whatever the rest of the map, the
     audience member `encodeClaims` writes (nothing for nil, a string for one entry, an array
     otherwise) is read back by the `aud` switch of `parseClaims` as exactly the original list, with
     no error recorded.
 
-    FULL STATEMENT: for every Claims value `c` whose Raw does not itself carry registered names and
-    whose instants are in range, under the json.Marshal / Decode inverse law (lookup-equivalence of
-    the decoded object with the marshalled map) and accepting verifiers,
-    `(encodeClaims c >>= parseClaims).run o = ok c'` with c'.iss = c.iss, c'.sub = c.sub,
-    c'.aud = c.aud, c'.exp = c.exp, c'.nbf = c.nbf, c'.iat = c.iat, c'.jti = c.jti and every extra
-    member preserved.  Proved here: the audience part (this theorem), the string-claim part
-    (`getString_setKey`, `getString_absent`, `lookup_setKey_ne`), the NumericDate part for whole
-    seconds (`numeric_date_roundtrip_integral`); the assembled statement is checked by the
-    correspondence run (claims stream) and its direct round-trip predicate. -/
+    (A lemma-level statement; the assembled theorem is `claims_roundtrip` above.) -/
 theorem claims_aud_roundtrip (l : List String) (m : List (String × Wire))
     (h0 : l = [] → Wire.lookup "aud" m = none) :
     audience ⟨setAud l m, none⟩ = (l, ⟨setAud l m, none⟩) := by
